@@ -257,9 +257,12 @@ def analyse(unit, tier, state_label):
             stats['no_rejecting_path'] += 1
     # concrete sweep: representative numbers through the real code, emitted text judged by the concrete validator
     # (independent of the symbolic rendering model: catches rendering changes the proxies cannot follow)
-    for v in (0, 1, -1, 7, 100, 16385, 0.0, 0.5, -0.5, 2.25, 1e-05, -1e-05, 1e-07, 1e+16, -1e+16, 1.5e+300, 123456.75, float('nan'), float('inf')):
+    for v in (0, 1, -1, 7, 100, 16385, 2 ** 62, 10 ** 30, 2 ** 1024, 10 ** 400, -10 ** 400, 0.0, 0.5, -0.5, 2.25, 1e-05, -1e-05, 1e-07, 1e+16, -1e+16,
+              1.5e+300, 123456.75, float('nan'), float('inf')):
         ok, text = concrete(ctor, v)
         stats['paths'] += 1
+        if ok is None and not str(text).startswith('to_string:') and text not in ('attribute not emitted',):
+            cands.append(dict(cls=unit, kind='internal-error:%s' % text, witness=dict(value=encode(v)), detail='offered %r' % (v,), prop='C19'))
         if ok and text is not None and not L.valid_text(text, True):
             cands.append(dict(cls=unit, kind='accepts-invalid:%s:emitted-text' % type(v).__name__, witness=dict(value=encode(v)),
                               detail='accepted %r, emitted %r' % (v, text)))
